@@ -388,7 +388,7 @@ func runC06(c *Ctx, variant int) {
 		w.TCPRcvCap = w.Pick(1<<20, 64, 1024, 70000)
 	}
 	w.Stat(c06pAPI[api])
-	maxSize := w.Pick(4096, 1024, 70000, 262144)
+	maxSize := w.Pick(4096, 1024, 70000, 262144, 4321, 100, 5)
 	if variant >= 0 {
 		maxSize = 300
 	}
